@@ -116,6 +116,7 @@ func init() {
 		Batches: []batchSpec{
 			{Name: "l1", World: "codec", Weight: 6},
 			{Name: "l2", World: "codec", Weight: 2, Park: 0.005, Gos: 0.02},
+			{Name: "nathole-frames", World: "nathole", Weight: 2},
 		},
 		Stub: []string{"network (simnet)", "scripted peers (independent protocol implementation)", "users", "clock"},
 		Rule: "one run = real frps with an honest scripted client (independent codec: any drift of framing or field names breaks every login) and a seeded sequence of framing cases on fresh and established connections: 1-byte chunking, EOF at arbitrary offsets, unknown type bytes, negative/oversized lengths with withheld bodies, malformed bodies, golden frames of the client->server message types; every frame frps emits is re-parsed against the released field names; distinct = distinct event-log hash",
@@ -131,6 +132,8 @@ func init() {
 			{Name: "sessions-race", World: "sessions", Weight: 1, Race: true, Park: 0.005, Gos: 0.02},
 			{Name: "workconn-race", World: "workconn", Weight: 1, Race: true, Park: 0.005, Gos: 0.02},
 			{Name: "release-race", World: "release", Weight: 1, Race: true},
+			{Name: "nathole", World: "nathole", Weight: 2, Park: 0.005, Gos: 0.02},
+			{Name: "nathole-race", World: "nathole", Weight: 1, Race: true},
 		},
 		Stub: []string{"network (simnet)", "scripted peers (independent protocol implementation)", "users", "clock"},
 		Rule: "one run = real frps with an honest client and 2-5 authenticated scripted peers sending every message type with extreme field values (negative/huge numbers, empty/very long/non-UTF-8 strings, nil maps, malformed addresses) concurrently with user probes, visitor and NAT-hole traffic; plus race-detector builds of this and the lifecycle worlds, whose reports are classified by accessed object (map operation / channel close in frp server or pkg code); any frp panic or fatal error in any world counts; distinct = distinct event-log hash",
@@ -169,6 +172,16 @@ func init() {
 		},
 		Stub: []string{"network (simnet UDP with per-leg loss/duplication/reordering)", "UDP users (several source addresses)", "UDP responder backend", "clock"},
 		Rule: "one run = real frps + real frpc with a udp proxy (or sudp proxy + visitor frpc), drawn packet size, encryption, compression, mux, TLS, 1-6 user sockets each sending 1-60 datagrams of 12..packet-size bytes to the public endpoint; the backend answers each with a function of the request; multiset inclusion is measured at the public socket and at the client's local sockets so that injected loss/duplication is not blamed on frp; faults batch adds per-leg loss/dup/reorder and a work-connection reset; distinct = distinct event-log hash",
+	})
+	reg(&propSpec{ID: "C20", Level: "exploration", CrashCounts: true,
+		Batches: []batchSpec{
+			{Name: "l1", World: "nathole", Weight: 5},
+			{Name: "l2", World: "nathole", Weight: 3, Park: 0.01, Gos: 0.02},
+		},
+		Stub: []string{"network (simnet TCP + UDP)", "scripted visitor, owner and third-party controls (independent protocol implementation)", "clock"},
+		Real: append(append([]string{}, commonReal...), "pkg/nathole controller, analysis, classification; nathole.MakeHole for both roles over simulated UDP"),
+		Rule: "one run = 2-12 hole-punching sessions between a scripted visitor and a scripted xtcp owner on real frps with generated NAT observations (equal/changing IPs and ports, edge ports, too few, malformed, public), right/wrong signatures, unknown proxies, and message orders (report before the owner's answer, duplicates, unknown session ids, silent owner); responses are checked for pairing, complementarity, mode rules, candidate ranges, third-party silence; finally the real MakeHole routine is run for both roles on an unfiltered simulated UDP network; distinct = distinct event-log hash",
+		Assume: []string{"STUN discovery is not simulated: observations are generated, and for the meet test they are the peers' real simulated addresses"},
 	})
 	reg(&propSpec{ID: "C10", Level: "fault_enumeration",
 		Batches: []batchSpec{
